@@ -31,6 +31,15 @@ curtsies.input.os -> proxy whose read() on the input stream snapshots / raises i
 curtsies.input.getpreferredencoding -> utf-8; blessed.Terminal.height/width -> the case's size.
 The output stream is an in-memory recorder (one entry per write call) that answers the cursor
 position query of CursorAwareWindow.__enter__ through the pty master.
+
+Determinism: nothing is synchronised by sleeping.  Typed bytes are waited for with FIONREAD; a
+request never really waits for its timeout (the select wrapper polls; "nothing ready" = expired);
+the SIGINT helper blocks SIGINT for itself, sends it once the main thread is on its way into the
+real select, then writes to a harness-private wake pipe, so the main thread runs the handler
+before control is back in curtsies whatever the scheduling (the same scenario gives byte-identical
+observations under heavy load).  In the child every inherited descriptor except 0-2 is closed;
+the result goes back to the check through descriptor 200 (visible, and constant, in every observed
+descriptor table); the wake pipe exists only in scenarios with a `sigint` request.
 """
 import array
 import fcntl
@@ -88,6 +97,9 @@ TRUSTED = [
     "modelled, not verified: `with` statement semantics (exit runs iff enter returned; the managers' __exit__ return None), "
     "termios/fcntl/signal/os.pipe semantics (lowest free descriptor; tcsetattr(tcgetattr()) is the identity), blessed "
     "capability strings for xterm-256color, sys.platform != darwin",
+    "harness: one forked child per scenario, the select / os.read / events.get_key proxies and the out_stream recorder "
+    "described in the module docstring of harness/props/c12.py; the request shapes (returned before waiting, number of "
+    "reads) and the writes of each render are OBSERVED and handed to the model, not predicted by it",
 ]
 ASSUMPTIONS = [
     "PARTIAL: asynchronous exceptions arriving while an __enter__/__exit__ itself or a C call is executing are not "
@@ -1277,11 +1289,11 @@ def generate(rng, tier):
                 h, w = _size(rng)
                 yield from all_cuts(sk_input_window(rng, h, w, wkind, outside), h, w, 1.0 if thorough else 0.6)
     # random nestings
-    for _ in range(50 if thorough else 8):
+    for _ in range(120 if thorough else 8):
         h, w = _size(rng)
         yield from all_cuts(sk_nesting(rng, h, w), h, w)
     # unrolled repetitions
-    for _ in range(16 if thorough else 2):
+    for _ in range(30 if thorough else 2):
         h, w = _size(rng)
         yield from all_cuts(sk_unrolled(rng, h, w), h, w)
     # re-entry of the same Input object in a changed environment
@@ -1294,7 +1306,7 @@ def generate(rng, tier):
         prog = sk_requests(rng, h, w, se=[True, False][k % 2] if k < 2 else None)
         yield from all_cuts(prog, h, w)
     # real SIGINT during a blocked request (main thread), under every kind of handler
-    for _ in range(60 if thorough else 12):
+    for _ in range(120 if thorough else 12):
         h, w = _size(rng)
         prog = sk_sigint(rng, h, w)
         yield _scenario(rng, prog, None, h, w, main=True)
